@@ -474,6 +474,10 @@ def gen_spec(r, size="normal"):
     def signals():
         sig0 = opt(r, 0.5, lambda: g_signal(r))
         series = opt(r, 0.6, lambda: [g_signal(r) for _ in range(r.choice([0, 1, 2, 4]))])
+        if series and r.random() < 0.08:
+            series[r.randrange(len(series))] = {}       # SignalState(): an object without any slot
+        if sig0 is not None and r.random() < 0.04:
+            sig0 = {}
         return sig0, series
 
     static = []
